@@ -203,7 +203,12 @@ def jacobian(pars, x, y):
         xsin, ysin = xxo * sint, yyo * sint
 
         if pars[prefix + 'amp'].vary:
-            dmds = model / amp
+            if amp == 0:
+                # model/amp is 0/0 for a component of zero amplitude, but the
+                # derivative is still well defined: the unit amplitude shape
+                dmds = elliptical_gaussian(x, y, 1., xo, yo, sx, sy, theta)
+            else:
+                dmds = model / amp
             matrix.append(dmds)
 
         if pars[prefix + 'xo'].vary:
